@@ -206,7 +206,9 @@ func checkC16(ctx *Ctx, c *Case) error {
 				return fmt.Errorf("anyutil.New(%s) failed: %v", full, err)
 			}
 		} else {
-			a = &anypb.Any{TypeUrl: "sentinel", Value: []byte{9}}
+			// a reused destination: unrelated content, or the same type named in another spelling
+			pre := []string{"sentinel", "type.googleapis.com/" + full, "example.org/x/" + full, full, "/" + full, "/other.Type"}
+			a = &anypb.Any{TypeUrl: pre[digest(c.Bytes, c.arg("n"), c.arg("opts"))%uint64(len(pre))], Value: []byte{9, 9, 9, 9, 9, 9, 9, 9, 9, 9, 9, 9}}
 			if err := anyutil.MarshalFrom(a, m, opts); err != nil {
 				return fmt.Errorf("anyutil.MarshalFrom(%s) failed: %v", full, err)
 			}
